@@ -34,6 +34,10 @@ type Snapshot struct {
 	Obj  map[ID]object.PanObject
 	Errs []string // *object.PanErr values found stored inside other values (C07 residue scan)
 	envs map[*object.Env]bool
+	// StopEnv is a frame the walk never enters (e.g. the const env with the built-ins).
+	StopEnv *object.Env
+	// NoProtos: do not follow Proto() edges (residue scan of data only).
+	NoProtos bool
 }
 
 // New returns an empty snapshot.
@@ -176,7 +180,7 @@ func (s *Snapshot) WalkEnv(env *object.Env, stop *object.Env) {
 }
 
 func (s *Snapshot) visitEnv(e *object.Env) {
-	if e == nil || s.envs[e] {
+	if e == nil || s.envs[e] || e == s.StopEnv {
 		return
 	}
 	s.envs[e] = true
@@ -211,7 +215,7 @@ func (s *Snapshot) visit(o object.PanObject, inside bool) {
 		for _, e := range v.Elems {
 			s.visit(e, true)
 		}
-		s.visit(v.Proto(), false)
+		s.visitProto(v.Proto())
 	case *object.PanObj:
 		if v.Pairs != nil {
 			for _, p := range *v.Pairs {
@@ -219,7 +223,7 @@ func (s *Snapshot) visit(o object.PanObject, inside bool) {
 				s.visit(p.Value, true)
 			}
 		}
-		s.visit(v.Proto(), false)
+		s.visitProto(v.Proto())
 	case *object.PanMap:
 		if v.Pairs != nil {
 			for _, p := range *v.Pairs {
@@ -233,12 +237,12 @@ func (s *Snapshot) visit(o object.PanObject, inside bool) {
 				s.visit(p.Value, true)
 			}
 		}
-		s.visit(v.Proto(), false)
+		s.visitProto(v.Proto())
 	case *object.PanRange:
 		s.visit(v.Start, true)
 		s.visit(v.Stop, true)
 		s.visit(v.Step, true)
-		s.visit(v.Proto(), false)
+		s.visitProto(v.Proto())
 	case *object.PanFunc:
 		if v.Env != nil {
 			s.visitEnv(v.Env)
@@ -254,12 +258,19 @@ func (s *Snapshot) visit(o object.PanObject, inside bool) {
 			s.visitEnv(v.Env)
 		}
 	case *object.PanInt:
-		s.visit(v.Proto(), false)
+		s.visitProto(v.Proto())
 	case *object.PanFloat:
-		s.visit(v.Proto(), false)
+		s.visitProto(v.Proto())
 	case *object.PanStr:
-		s.visit(v.Proto(), false)
+		s.visitProto(v.Proto())
 	}
+}
+
+func (s *Snapshot) visitProto(p object.PanObject) {
+	if s.NoProtos {
+		return
+	}
+	s.visit(p, false)
 }
 
 // Diff reports objects of old whose fingerprint differs in now (objects only in now are new).
